@@ -277,12 +277,14 @@ def execute(case, ctx):
     # ---- (f) splitting ------------------------------------------------------------------------------------
     if not viols and ended is None and fixed and not exact and len(case["targets"]) > 1 and integ != "mercurius":
         ctx.op(100)
+        rb.alloc_fill(0x00)         # the single-call run finds other garbage in its fresh heap memory than the split run
         one = mk()
         rb.hb_reset()
         L2.verif_hb_stop_at(2**62)
         try:
             with rb.quiet():
                 one.integrate(case["targets"][-1], exact_finish_time=0)
+            rb.alloc_fill(0xCB)
             if rb.T(one) != rb.T(sim):
                 viol("split", "splitting the integration into consecutive calls changed the trajectory", "%s targets %s: t %r vs %r, steps %d vs %d" % (integ, case["targets"], sim.t, one.t, sim.steps_done, one.steps_done), key="split:%s" % integ)
         except (rebound.Escape, rebound.NoParticles, rebound.Encounter, rebound.Collision, rebound.GenericError, RuntimeError):
